@@ -103,8 +103,11 @@ theorem performCU_necessary {cfg : Cfg} {w w' : World} {t : Task} (h : performCU
       exact ⟨ancOK_of_parent hm, by rw [← get?_of_parent hm hp]; exact hnd⟩
     split at h
     · split at h
-      · obtain ⟨d, fm, hm, hnone, _⟩ := linkFile_spec h
-        exact ⟨ancOK_of_parent hm, by rw [← get?_of_parent hm hp, hnone]; simp⟩
+      · split at h
+        · obtain ⟨d, fm, hm, hnone, _⟩ := linkFile_spec h
+          exact ⟨ancOK_of_parent hm, by rw [← get?_of_parent hm hp, hnone]; simp⟩
+        · obtain ⟨d, fm, hm, hnd, _⟩ := relinkFile_spec h
+          exact ⟨ancOK_of_parent hm, by rw [← get?_of_parent hm hp]; exact hnd⟩
       · cases h1 : writeFile cfg w t.rel m with
         | none => simp [h1] at h
         | some w1 => exact hwf w1 h1
@@ -163,11 +166,24 @@ theorem performCU_sufficient {cfg : Cfg} {w : World} {t : Task} (hp : t.rel ≠ 
         obtain ⟨d, hd, hg, hkeep⟩ := mkdirAll_parent_some ha hp
         obtain ⟨fm, hfm⟩ := hlm _ (List.mem_of_find?_eq_some hfind)
         simp only at hfm
-        have h1 : d.get? t.rel = none := by rw [hg]; exact hcr m n hpl (by simpa using hc.1.1)
         have h2 : d.get? first = some (.file fm) := by rw [hkeep first (by rw [hfm]; simp), hfm]
-        unfold linkFile
-        simp only [hd, h1, h2]
-        exact ⟨_, rfl⟩
+        by_cases hact : t.act = .create
+        · have h1 : d.get? t.rel = none := by rw [hg]; exact hcr m n hpl hact
+          rw [if_pos hact]
+          unfold linkFile
+          simp only [hd, h1, h2]
+          exact ⟨_, rfl⟩
+        · have h1 : d.get? t.rel ≠ some .dir := by rw [hg]; exact ho
+          rw [if_neg hact]
+          unfold relinkFile
+          simp only [hd, h2]
+          cases hgp : d.get? t.rel with
+          | none => exact ⟨_, rfl⟩
+          | some v =>
+            cases v with
+            | dir => exact absurd hgp h1
+            | file o => exact ⟨_, rfl⟩
+            | symlink s' => exact ⟨_, rfl⟩
       · obtain ⟨w1, h1⟩ := writeFile_some (cfg := cfg) (m := m) hp ha ho
         exact ⟨_, by rw [h1]; rfl⟩
     · exact writeFile_some hp ha ho
